@@ -841,6 +841,7 @@ def replay_worker(item):
     simulate / simulationToBytes / simulationFromBytes."""
     ci, case, runs = item
     import random
+    from fractions import Fraction
 
     import scenic
     from scenic.core.serialization import SerializationError
@@ -909,7 +910,7 @@ def replay_worker(item):
             with watchdog(60), srng.Scripted(prefix=list(fresh), uniform_values=uv) as s2:
                 try:
                     sim2 = sc.simulationFromBytes(data, lattice_simulator(pert), maxSteps=case["T2"],
-                                                  divergenceTolerance=case["tol4"] / 4.0,
+                                                  divergenceTolerance=float(case["tol4"] * (Fraction(1, 10**9) if case["nano"] else Fraction(1, 4))),
                                                   continueAfterDivergence=bool(case["cont"]))
                     i2, t2, ok2 = observe(sim2)
                     obs = {"acts": i2, "term": t2, "consistent": ok2}
